@@ -4,11 +4,17 @@ package c20
 // RecalculateHeaders + Inject on entries parsed from a hostile image (pkg/intel/metadata/fit).
 
 import (
+	"bytes"
 	"fmt"
 	"math/rand"
 	"strconv"
 	"strings"
 
+	"github.com/linuxboot/fiano/pkg/intel/metadata/bg/bgbootpolicy"
+	"github.com/linuxboot/fiano/pkg/intel/metadata/bg/bgkey"
+	"github.com/linuxboot/fiano/pkg/intel/metadata/cbnt/cbntbootpolicy"
+	"github.com/linuxboot/fiano/pkg/intel/metadata/cbnt/cbntkey"
+	"github.com/linuxboot/fiano/pkg/intel/metadata/common/bgheader"
 	"github.com/linuxboot/fiano/pkg/intel/metadata/fit"
 
 	"verif/harness/core"
@@ -176,6 +182,53 @@ func fitSeeds(r *rand.Rand) []Seed {
 	return ss
 }
 
+// fitOverlapSeeds: MANY entries whose data segments are large and overlap — every entry designates (almost)
+// the whole image.  GetEntries may keep one slice header per entry, not one copy of its segment: with
+// n entries over an image of |img| bytes the allocation must stay O(|img| + n), and n·|img| (64 MiB for the
+// 64 KiB image below) is far outside the bound.  Types whose ParseData the harness does not call (BIOS
+// startup module: Size in 16-byte units; BIOS policy record: Size in bytes; microcode: no size).
+func fitOverlapSeeds() []Seed {
+	var ss []Seed
+	for _, v := range []struct {
+		name string
+		size int
+		n    int
+		typ  byte
+	}{{"startup-1023x64K", 0x10000, 1023, 0x07}, {"policy-1023x64K", 0x10000, 1023, 0x09}, {"mixed-255x16K", 0x4000, 255, 0x07}} {
+		img := make([]byte, v.size)
+		for i := range img {
+			img[i] = 0xff
+		}
+		tableOff := 0x100
+		for i := 0; i < 16; i++ {
+			img[v.size-0x40+i] = 0
+		}
+		le64(img, v.size-0x40, physAddr(tableOff, v.size))
+		put := func(i int, addr uint64, sz uint32, typ byte) {
+			o := tableOff + 16*i
+			le64(img, o, addr)
+			img[o+8], img[o+9], img[o+10], img[o+11] = byte(sz), byte(sz>>8), byte(sz>>16), 0
+			le16(img, o+12, 0x0100)
+			img[o+14], img[o+15] = typ, 0
+		}
+		put(0, 0x2020205f5449465f, uint32(v.n+1), 0x00)
+		for i := 1; i <= v.n; i++ {
+			typ := v.typ
+			if v.name[0] == 'm' && i%2 == 0 {
+				typ = 0x09
+			}
+			span := v.size - 0x40 // from offset 0 up to the FIT pointer
+			sz := uint32(span / 16)
+			if typ == 0x09 {
+				sz = uint32(span)
+			}
+			put(i, physAddr(0, v.size), sz, typ)
+		}
+		ss = append(ss, Seed{Name: "attack-overlap-" + v.name, In: img})
+	}
+	return ss
+}
+
 func parseAll(entries fit.Entries) {
 	for _, e := range entries {
 		switch e := e.(type) {
@@ -193,8 +246,10 @@ func parseAll(entries fit.Entries) {
 
 func init() {
 	Register(&EP{
-		Name:  "fit.entries",
-		Seeds: fitSeeds,
+		Name: "fit.entries",
+		Seeds: func(r *rand.Rand) []Seed {
+			return append(fitSeeds(r), fitOverlapSeeds()...)
+		},
 		Run: func(in []byte, _ map[string]string) Res {
 			tbl, err := fit.GetTable(in)
 			if err != nil {
@@ -236,6 +291,17 @@ func init() {
 					ss = append(ss, Seed{Name: s.Name + "/off=" + off, In: s.In, Fields: s.Fields, Rels: s.Rels, Args: map[string]string{"off": off}})
 				}
 			}
+			for _, s := range fitOverlapSeeds() {
+				s.Args = map[string]string{"off": "256"}
+				ss = append(ss, s)
+			}
+			// a table that says it has no entry at all (Size = 0 in the "_FIT_   " header): GetEntries returns an
+			// empty list, RecalculateHeaders must not look at entries[0]
+			img, _ := fitImage(0x400, 0, []fitEnt{{typ: 0x07, off: 0x100, data: make([]byte, 32), size: 2}})
+			img[8], img[9], img[10] = 0, 0, 0
+			for _, rc := range []string{"1", "0"} {
+				ss = append(ss, Seed{Name: "attack-empty-table/recalc=" + rc, In: img, Args: map[string]string{"off": "0", "recalc": rc}})
+			}
 			return ss
 		},
 		Run: func(in []byte, args map[string]string) Res {
@@ -252,9 +318,19 @@ func init() {
 				}
 			}
 			err = entries.Inject(img, off)
-			return Res{Class: class(err), Sub: sub}
+			// the model is compared on the whole image afterwards (what was written before a failure stays written)
+			return Res{Class: class(err), Sub: sub, MCls: fmt.Sprintf("%s:%d", class(err), core.FNV(img))}
 		},
-		Quick: 1200,
+		Model: func(in []byte, args map[string]string, _ Res) string {
+			rc := "1"
+			if args["recalc"] == "0" {
+				rc = "0"
+			}
+			off, _ := strconv.ParseUint(args["off"], 10, 64)
+			return fmt.Sprintf("fit.inject %s %d %s", core.Hex(in), off, rc)
+		},
+		ModelMax: 9000,
+		Quick:    1200,
 	})
 	// the data parsers directly on hostile bytes
 	Register(&EP{
@@ -293,7 +369,8 @@ func init() {
 			for _, p := range []string{"pkg/intel/metadata/cbnt/cbntkey/testdata/km.bin", "pkg/intel/metadata/bg/bgkey/testdata/km.bin",
 				"pkg/intel/metadata/cbnt/cbntbootpolicy/testdata/bpm.bin", "pkg/intel/metadata/bg/bgbootpolicy/testdata/bpm.bin"} {
 				b := readRepoFile(p)
-				ss = append(ss, Seed{Name: p[len("pkg/intel/metadata/"):], In: b, Fields: []core.Field{{Name: "StructVersion", Off: 8, W: 1, Hdr: 9}}})
+				ss = append(ss, Seed{Name: p[len("pkg/intel/metadata/"):], In: b,
+					Fields: append([]core.Field{{Name: "StructVersion", Off: 8, W: 1, Hdr: 9}}, mfFields(len(b))...)})
 			}
 			return ss
 		},
@@ -304,10 +381,34 @@ func init() {
 			b := &fit.EntryBootPolicyManifestRecord{}
 			b.DataSegmentBytes = in
 			_, _, err2 := b.ParseData()
+			cls := "err"
 			if err1 == nil || err2 == nil {
-				return Res{Class: "ok"}
+				cls = "ok"
 			}
-			return Res{Class: "err"}
+			// what the dispatch is made of, strictly (ParseData itself forgives an io.EOF of the reader):
+			// DetectBGV, then ReadFrom of the manifest of that version
+			m := "v=E"
+			r := bytes.NewReader(in)
+			if v, err := bgheader.DetectBGV(r); err == nil {
+				var km, bpm readerFrom
+				if v == bgheader.Version10 {
+					km, bpm = bgkey.NewManifest(), bgbootpolicy.NewManifest()
+				} else {
+					km, bpm = cbntkey.NewManifest(), cbntbootpolicy.NewManifest()
+				}
+				show := func(x readerFrom) string {
+					n, err := x.ReadFrom(bytes.NewReader(in))
+					if err != nil {
+						return "err"
+					}
+					return fmt.Sprintf("ok:n=%d", n)
+				}
+				m = fmt.Sprintf("v=%d;km=%s;bpm=%s", v, show(km), show(bpm))
+			}
+			return Res{Class: cls, MCls: m}
 		},
+		Model:    hexReq("fit.record"),
+		Quick:    400,
+		Thorough: 20000,
 	})
 }
